@@ -97,6 +97,29 @@ func (vc *VC) evalConversion(call *ast.CallExpr, to types.Type, st *State) Value
 	if ts == SErr {
 		return vc.convertTo(tm, from, to, call.Pos())
 	}
+	// pointer to pointer with identical underlying struct types: (*T2)(p)
+	if a, b := vc.ss.info[tm.Sort], vc.ss.info[ts]; a != nil && b != nil && a.Kind == "ptr" && b.Kind == "ptr" {
+		as, bs := vc.ss.info[vc.ss.sortOf(a.Elem)], vc.ss.info[vc.ss.sortOf(b.Elem)]
+		if as != nil && bs != nil && as.Kind == "struct" && bs.Kind == "struct" && len(as.Fields) == len(bs.Fields) {
+			okFields := true
+			var parts []string
+			inner := fmt.Sprintf("(val.%s %s)", tm.Sort, tm.S)
+			for i, f := range as.Fields {
+				if bs.Fields[i].Sort != f.Sort {
+					okFields = false
+					break
+				}
+				parts = append(parts, fmt.Sprintf("(%s.%s %s)", as.Name, f.Name, inner))
+			}
+			if okFields {
+				mkv := fmt.Sprintf("mk.%s", bs.Name)
+				if len(parts) > 0 {
+					mkv = fmt.Sprintf("(mk.%s %s)", bs.Name, strings.Join(parts, " "))
+				}
+				return vc.define("pconv", Term{fmt.Sprintf("(ite ((_ is nil.%s) %s) nil.%s (ref.%s %s))", tm.Sort, tm.S, ts, ts, mkv), ts, to})
+			}
+		}
+	}
 	// struct to struct with identical underlying types
 	if a, b := vc.ss.info[tm.Sort], vc.ss.info[ts]; a != nil && b != nil && a.Kind == "struct" && b.Kind == "struct" && len(a.Fields) == len(b.Fields) {
 		var parts []string
